@@ -9,14 +9,15 @@ LEVEL = "fault_enumeration"
 EXHAUSTIVE = True
 RULE = ("an explicit enumeration of tag values placed under the type-tag key (every JSON type, empty / dotted / "
         "relative / double-dotted strings, names of modules, functions, type variables, constants, non-serialisable "
-        "classes, a package whose import raises ImportError) run completely, plus random tags assembled from dots and "
+        "classes, abstract classes, packages whose import raises ImportError / RuntimeError / SyntaxError, a module whose "
+        "__getattr__ fails with KeyError) run completely, plus random tags assembled from dots and "
         "identifier fragments; a tag that an independent resolver finds to be a deserialisable class is skipped.  "
         "Oracle: every one of four consecutive presentations of the document (module-level from_json and "
         "SubclassJSONSerializer.from_json, a valid document in between) raises a JSONSerializationError subclass - "
         "never another exception, never an object.  "
         "Non-trivial = the tag gets past the 'missing' test (truthy); distinct = the tag value")
 ASSUMPTIONS = ["documents carry arbitrary extra payload keys besides the tag",
-               "modules whose import raises something other than ImportError are not part of the enumeration"]
+               "a module whose import ends the interpreter (SystemExit) is not part of the enumeration"]
 ANCHORS = ["SubclassJSONSerializer.from_json", "from_json"]
 
 FIXED_TAGS = [
@@ -30,6 +31,8 @@ FIXED_TAGS = [
     "krrood.adapters.json_serializer.to_json", "krrood.adapters.json_serializer.leaf_types",
     "krrood.adapters.json_serializer.JSONSerializationError", "krrood.adapters.json_serializer.JSONSerializableTypeRegistry",
     "krrood.adapters.json_serializer.SubclassJSONSerializer", "models.jsonmodel.NoFromJson", "models.jsonmodel.NoneFromJson",
+    "models.jsonmodel.AbstractNode", "models.badpkg_runtime.Thing", "models.badpkg_runtime", "models.badpkg_syntax.Thing",
+    "models.lazymod.Thing", "models.lazymod.anything", "six.moves.dbm_gnu",
     "krrood.adapters.nothere.X", "krrood..adapters.X", "dataclasses.dataclass", "dataclasses.MISSING", "enum.Enum",
     "abc.ABC", "decimal", "uuid", "uuid.uuid4", "uuid.NAMESPACE_DNS", "collections.abc", "collections.abc.Mapping",
     "sys.modules", "sys.path", "__main__.X", "__main__", "builtins.", ".builtins", "1.2", "1", "a.1", "a-b.c", "a/b.c",
@@ -93,8 +96,12 @@ def independent_valid(tag):
         m = importlib.import_module(mod)
     except BaseException:
         return False
-    obj = getattr(m, cls, None) if cls else None
-    if not isinstance(obj, type):
+    try:
+        obj = getattr(m, cls, None) if cls else None
+    except Exception:
+        return False
+    import inspect
+    if not isinstance(obj, type) or inspect.isabstract(obj):
         return False
     if issubclass(obj, SubclassJSONSerializer):
         # deserialisable only when the class says how it is created from json
@@ -115,6 +122,8 @@ def mechanism(tag, exc):
         return "relative-module-name"
     if isinstance(exc, ImportError):
         return "import-error-module"
+    if mod.startswith("models.badpkg_") or mod == "models.lazymod" or mod.startswith("six."):
+        return "module-fails-with-another-exception"
     if isinstance(exc, TypeError):
         return "non-class-target"
     if isinstance(exc, NotImplementedError):
